@@ -46,6 +46,7 @@ TYNAMES = ["i8", "i16", "i32", "i64", "u8", "u16", "u32", "u64"]
 FOLD_OPS = ["+", "-", "*", "%", "<<", ">>"]          # what ConstantFolder.ops lists at the pinned commit
 ALL_OPS = list(R.BINOPS)
 SHIFTY = ("<<", ">>", "rol", "ror")
+IFCONVERTED = ("correct", "remainder")
 
 BOUNDS = {
     "quick": {"types": TYNAMES, "constant operands": "every value of the type (symbolic)",
@@ -269,7 +270,8 @@ class ExprHarness(Harness):
     """one expression shape through one real pass"""
     shim_modules = ("ppci.ir", "ppci.opt.constantfolding", "ppci.opt.transform")
     max_paths = 4000
-    prove_timeout_ms = 30000
+    prove_timeout_ms = 60000
+    timeout_ms = 60000
 
     def __init__(self, expr, layout="one", pas="fold"):
         self.expr = expr
@@ -281,8 +283,31 @@ class ExprHarness(Harness):
         self.leaves = shape_leaves(expr)
         self.nodes = shape_nodes(expr)
 
+    def modules(self):
+        mods = Harness.modules(self)
+        # the two pure helpers whose only branch is a sign test on the computed value are if-converted
+        # from their CURRENT source (conditional expression -> if-then-else term): no path split then
+        # depends on a product or a remainder, path conditions stay trivial for the solver.  The
+        # concrete validation of every path runs the untouched functions.
+        self._conv = {}
+        if self.pas == "fold":
+            from symx import ifconv
+            import ppci.opt.constantfolding as cf
+            for fn in IFCONVERTED:
+                f = getattr(cf, fn, None)
+                if f is not None:
+                    try:
+                        g = ifconv.convert(f, extended=True)
+                        if getattr(g, "__symx_converted__", 0):
+                            self._conv[fn] = g
+                    except Exception:
+                        pass
+        return mods
+
     def shim_extra(self):
-        return {"math": _SymMath()}
+        d = {"math": _SymMath()}
+        d.update(self._conv)
+        return d
 
     def inputs(self, mk):
         d = {}
@@ -419,9 +444,11 @@ class ExprHarness(Harness):
                 da, va = eval_desc(st[1], inp)
                 db, vb = eval_desc(st[2], inp)
                 d, v = R.binop(e[1], va, vb, *TYPES[e[2]])
-                d = sym_and(da, db, d)
+                # (operands in range: what consts-in-range demands of the constants that replaced them)
+                d = sym_and(da, db, d, R.in_range(va, *TYPES[e[2]]), R.in_range(vb, *TYPES[e[2]]))
             else:
                 d, va = eval_desc(st[1], inp)
+                d = sym_and(d, R.in_range(va, *TYPES[shape_ty(e[2])]))
                 v = R.cast(va, *TYPES[e[1]])
             tag = f"{i}:{e[0]}{e[1] if e[0] == 'bin' else ''}"
             posts[f"value-agrees@{tag}"] = implies(d, sym_and(dr, vr == v))
